@@ -46,6 +46,21 @@ struct ShortTimeout
 	~ShortTimeout() { g_fork_timeout_s = saved; }
 };
 
+// an `err` outcome is only what the property/known findings describe if the diagnostic is the expected one;
+// any other diagnostic is reported as `err-other <text>` (never excused as a known behaviour)
+static std::string classify_err(const std::string& obs, const std::string& diag, std::initializer_list<const char*> expected)
+{
+	if(obs != "err")
+		return obs;
+	for(const char* e : expected)
+		if(diag.find(e) != std::string::npos)
+			return obs;
+	std::string snip;
+	for(char c : diag.substr(0, 120))
+		snip += (c == '\n' || c == ' ' || c == '\t') ? '_' : c;
+	return "err-other " + snip;
+}
+
 std::string handle(const std::string& op, Args& a)
 {
 	if(op == "c15.householder")
@@ -70,12 +85,14 @@ std::string handle(const std::string& op, Args& a)
 	{
 		Matrix M = square(a);
 		a.end();
-		return run_forked([&](Out& o) {
+		std::string diag;
+		std::string obs = run_forked([&](Out& o) {
 			auto ev = Eigenvalues(M);
 			o << ev.size();
 			for(double x : ev)
 				o << x;
-		});
+		}, &diag);
+		return classify_err(obs, diag, {"Eigenvalues(): The QR algorithm did not converge"});
 	}
 	if(op == "c15.eigensystem" || op == "c15.eigenvectors")
 	{
@@ -83,7 +100,8 @@ std::string handle(const std::string& op, Args& a)
 		a.end();
 		bool sys = op == "c15.eigensystem";
 		ShortTimeout t(1);
-		return run_forked([&](Out& o) {
+		std::string diag;
+		std::string obs = run_forked([&](Out& o) {
 			Matrix W(M);
 			if(sys)
 			{
@@ -115,7 +133,8 @@ std::string handle(const std::string& op, Args& a)
 					if(!(W[i][j] == M[i][j]))
 						same = false;
 			o << (same ? "same" : "modified");
-		});
+		}, &diag);
+		return classify_err(obs, diag, {"Matrix::Inverse()", "Eigenvalues(): The QR algorithm did not converge"});
 	}
 	if(op == "c15.rayleigh")   // model-only illustration; the harness does not answer it
 		throw BadOp();
